@@ -10,21 +10,31 @@ export GOFLAGS=-mod=mod GOPROXY=off GOSUMDB=off GOTOOLCHAIN=local CGO_ENABLED=0
 VERIF=$(cd "$(dirname "$0")" && pwd)
 export VERIF_DIR=$VERIF
 BIN=$VERIF/.bin
+REPO=${VERIF_REPO:-/repo}
+MODFLAG=
+if [ "$REPO" != /repo ]; then
+  # scratch copy of the repository (seedtest.sh): own binaries, own go.mod with the replace redirected
+  BIN=$VERIF/.bin-alt
+  mkdir -p "$BIN"
+  sed -e "s|=> /repo|=> $REPO|" -e "s|=> ../fakefaiss|=> $VERIF/fakefaiss|" "$VERIF/harness/go.mod" > "$BIN/go.mod"
+  cp "$VERIF/harness/go.sum" "$BIN/go.sum"
+  MODFLAG="-modfile=$BIN/go.mod"
+fi
 mkdir -p "$BIN"
 cd "$VERIF/harness" || exit 2
 
 build() { # flavour
   local f=$1 out="$BIN/vcheck-$1" log="$BIN/build-$1.log"
   case "$f" in
-    plain)   go build -tags "verif" -o "$out" ./cmd/vcheck >"$log" 2>&1 ;;
-    vec)     go build -tags "verif vectors" -o "$out" ./cmd/vcheck >"$log" 2>&1 ;;
-    race)    CGO_ENABLED=1 go build -race -tags "verif" -o "$out" ./cmd/vcheck >"$log" 2>&1 ;;
-    racevec) CGO_ENABLED=1 go build -race -tags "verif vectors" -o "$out" ./cmd/vcheck >"$log" 2>&1 ;;
+    plain)   go build $MODFLAG -tags "verif" -o "$out" ./cmd/vcheck >"$log" 2>&1 ;;
+    vec)     go build $MODFLAG -tags "verif vectors" -o "$out" ./cmd/vcheck >"$log" 2>&1 ;;
+    race)    CGO_ENABLED=1 go build $MODFLAG -race -tags "verif" -o "$out" ./cmd/vcheck >"$log" 2>&1 ;;
+    racevec) CGO_ENABLED=1 go build $MODFLAG -race -tags "verif vectors" -o "$out" ./cmd/vcheck >"$log" 2>&1 ;;
     inst|instvec)
       local tags="verif inst"; [ "$f" = instvec ] && tags="verif vectors inst"
       local ov; ov=$(mktemp -d /dev/shm/verif-ov-XXXXXX) || return 2
-      if ! go run ./instrument -repo "${VERIF_REPO:-/repo}" -out "$ov" -tags "$tags" >"$log" 2>&1; then rm -rf "$ov"; return 1; fi
-      go build -overlay "$ov/overlay.json" -tags "$tags" -o "$out" ./cmd/vcheck >>"$log" 2>&1
+      if ! go run $MODFLAG ./instrument -repo "$REPO" -out "$ov" -tags "$tags" >"$log" 2>&1; then rm -rf "$ov"; return 1; fi
+      go build $MODFLAG -overlay "$ov/overlay.json" -tags "$tags" -o "$out" ./cmd/vcheck >>"$log" 2>&1
       local rc=$?; rm -rf "$ov"; return $rc ;;
     *) echo "unknown flavour $f" >&2; return 2 ;;
   esac
